@@ -144,9 +144,14 @@ structure Cfg where
 deriving Repr, DecidableEq
 
 /-- keys of the dictionary that plays the role of the trailer.
-classic: `write_trailer`; xref stream: `XRefStreamWriter::create_dictionary` + `Length`
-(`write_xref_stream` never looks at `encrypt_obj_id` / `file_id`). -/
+classic: `write_trailer`; xref stream: `XRefStreamWriter::create_dictionary` + `Length`, and —
+like `write_trailer` — `Encrypt` / `ID` from `encrypt_obj_id` / `file_id`. -/
 def trailerKeys (cfg : Cfg) (encrypted : Bool) : List String :=
+  (if cfg.xref then ["Type", "Size", "Root", "Info", "W", "Index", "Filter", "Length"]
+   else ["Size", "Root", "Info"]) ++ (if encrypted then ["Encrypt", "ID"] else [])
+
+/-- the writer before the repair: `write_xref_stream` never looked at `encrypt_obj_id` / `file_id` -/
+def trailerKeysOld (cfg : Cfg) (encrypted : Bool) : List String :=
   if cfg.xref then ["Type", "Size", "Root", "Info", "W", "Index", "Filter", "Length"]
   else ["Size", "Root", "Info"] ++ (if encrypted then ["Encrypt", "ID"] else [])
 
@@ -160,6 +165,11 @@ encryption and a password unlocked it, verbatim otherwise -/
 def readObj (cfg : Cfg) (enc dec : Bytes → Bytes) (o : Obj) : Obj :=
   let written := encryptObj enc o
   if detectEncryption (trailerKeys cfg true) then decryptObj dec written else written
+
+/-- the reader's view of an object written by the unrepaired writer -/
+def readObjOld (cfg : Cfg) (enc dec : Bytes → Bytes) (o : Obj) : Obj :=
+  let written := encryptObj enc o
+  if detectEncryption (trailerKeysOld cfg true) then decryptObj dec written else written
 
 def readStm (cfg : Cfg) (enc dec : Bytes → Bytes) (em : Bool) (s : Stm) : Option Stm :=
   let written := writeStm enc em s
